@@ -1,7 +1,9 @@
 (* Props/C16.v — property C16: Interval and AngleInterval behave as the closed sets they denote.
-   Statements only; every proof is [exact <lemma of Proofs/Interval.v>]. *)
+   Statements only; every proof is [exact <lemma of Proofs/Interval.v or Proofs/SrcInterval.v>].
+   The theorems are about Model/Interval.v; C16_model_is_source_* state that this model is, function by function,
+   the Gallina text generated on every run from commonroad/common/util.py by harness/vlib/py2coq.py. *)
 From Coq Require Import QArith ZArith Bool.
-From CR Require Import Base.QMod Model.Interval Proofs.Interval.
+From CR Require Import Base.QMod Model.Interval Proofs.Interval Gen.Src_util Proofs.SrcInterval.
 Open Scope Q_scope.
 
 (* construction with start > end is rejected, and only then *)
@@ -89,6 +91,36 @@ Example C16_nonvacuous :
   acontains (710 # 113) I (-1) = false /\ acontains (710 # 113) I (1 - (710 # 113)) = true.
 Proof. unfold WF; simpl. repeat split; vm_compute; congruence. Qed.
 
+(* ---- the model the theorems above are about IS the translated source (Gen/Src_util.v, regenerated every run) *)
+Theorem C16_model_is_source_interval : forall I J a b x c n,
+  src_mk a b = mk a b /\ src_contains_pt I x = contains_pt I x /\ src_in_pt I x = contains_pt I x /\
+  src_contains_itv I J = contains_itv I J /\ src_in_itv I J = contains_itv I J /\
+  src_overlaps I J = overlaps I J /\ flip_res_opt (src_intersection I J) = intersection I J /\
+  src_length I = length I /\ src_add I c = add I c /\ src_sub I c = sub I c /\ src_mul I c = mul I c /\
+  (~ c == 0 -> src_div I c = div I c) /\ (c == 0 -> src_div I c = Err) /\ src_round I n = round n I /\
+  src_gt_num I x = gt_num I x /\ src_gt_itv I J = gt_itv I J /\ src_lt_num I x = lt_num I x /\ src_lt_itv I J = lt_itv I J.
+Proof.
+  exact (fun I J a b x c n =>
+    conj (src_mk_eq a b) (conj (src_contains_pt_eq I x) (conj (src_in_pt_eq I x) (conj (src_contains_itv_eq I J)
+    (conj (src_in_itv_eq I J) (conj (src_overlaps_eq I J) (conj (src_intersection_eq I J) (conj (src_length_eq I)
+    (conj (src_add_eq I c) (conj (src_sub_eq I c) (conj (src_mul_eq I c) (conj (src_div_eq I c) (conj (src_div_zero I c) (conj (src_round_eq I n)
+    (conj (src_gt_num_eq I x) (conj (src_gt_itv_eq I J) (conj (src_lt_num_eq I x) (src_lt_itv_eq I J)))))))))))))))))).
+Qed.
+Theorem C16_model_is_source_angle : forall tau fuel I J a b th c,
+  src_valid_orientation tau th = valid_orientation tau th /\
+  src_make_valid_orientation tau fuel a = make_valid_orientation tau fuel a /\
+  src_normalise tau fuel a b = normalise tau fuel a b /\ src_amk tau fuel a b = amk tau fuel a b /\
+  src_acontains tau I th = acontains tau I th /\ src_acontains_pt tau I th = acontains tau I th /\
+  src_acontains_itv tau I J = acontains_itv tau I J /\ src_acontains_plain_itv tau I J = acontains_itv tau I J /\
+  src_aadd tau fuel I c = aadd tau fuel I c /\ src_asub tau fuel I c = asub tau fuel I c.
+Proof.
+  exact (fun tau fuel I J a b th c =>
+    conj (src_valid_orientation_eq tau th) (conj (src_make_valid_orientation_eq tau fuel a)
+    (conj (src_normalise_eq tau fuel a b) (conj (src_amk_eq tau fuel a b) (conj (src_acontains_eq tau I th)
+    (conj (src_acontains_pt_eq tau I th) (conj (src_acontains_itv_eq tau I J) (conj (src_acontains_plain_itv_eq tau I J)
+    (conj (src_aadd_eq tau fuel I c) (src_asub_eq tau fuel I c)))))))))).
+Qed.
+
 Print Assumptions C16_ctor_rejects.
 Print Assumptions C16_ctor_accepts.
 Print Assumptions C16_contains_point.
@@ -108,3 +140,5 @@ Print Assumptions C16_angle_shift.
 Print Assumptions C16_norm_down_terminates.
 Print Assumptions C16_norm_up_terminates.
 Print Assumptions C16_nonvacuous.
+Print Assumptions C16_model_is_source_interval.
+Print Assumptions C16_model_is_source_angle.
